@@ -2,6 +2,7 @@ package checks
 
 import (
 	"fmt"
+	"strings"
 	"sync"
 
 	"verifharness/core"
@@ -99,13 +100,20 @@ func c07random(rng *core.Rng, pfx string, maxLen int) []xMsg {
 				h = append(h, xMsg{K: "parse", Name: name, Query: "P " + id, Prog: xProg(id, rng.Intn(3))}, xMsg{K: "sync"})
 				break
 			}
-			h = append(h, xMsg{K: "parse", Name: name, Query: "P " + id, Prog: xProg(id, 3+rng.Intn(2)+10*rng.Intn(2))})
+			q := "P " + id
+			if rng.Intn(5) == 0 {
+				q += " /* " + strings.Repeat("large query text ", 250+rng.Intn(300)) + "*/" // a Parse of 4-9 KiB
+			}
+			h = append(h, xMsg{K: "parse", Name: name, Query: q, Prog: xProg(id, 3+rng.Intn(2)+10*rng.Intn(2))})
 			defS[name] = true
 		case k < 47:
 			name, portal := pick(defS), core.Pick(rng, xNames)
 			m := xMsg{K: "bind", Portal: portal, Name: name, BindID: i, Params: [][]byte{[]byte(fmt.Sprintf("%s-bind%d", pfx, i)), []byte(fmt.Sprint(i))}}
 			if rng.Bool() {
 				m.RFmts = []int16{int16(rng.Intn(2))}
+			}
+			if rng.Intn(5) == 0 {
+				m.Params[1] = []byte(strings.Repeat(fmt.Sprintf("big%d.", i), 700+rng.Intn(600))) // a Bind of 4-9 KiB
 			}
 			h = append(h, m)
 			if defS[name] {
